@@ -77,6 +77,7 @@ class CallTracker(object):
         c = self._call
         if c is not None:
           c.completions.append((CLOCK.now, 'value', value))
+          tracker._first(c)
           if c.ar is None or c.ar is self:
             tracker._mark(c)
         o = self._outer
@@ -89,6 +90,7 @@ class CallTracker(object):
         c = self._call
         if c is not None:
           c.completions.append((CLOCK.now, 'exc', exception))
+          tracker._first(c)
           if c.ar is None or c.ar is self:
             tracker._mark(c)
         o = self._outer
@@ -112,8 +114,18 @@ class CallTracker(object):
       return ar
     sd.MessageDispatcher._DispatchMethod = _DispatchMethod
 
+  on_first_completion = None
+
+  def _first(self, c):
+    """The call's terminal result was set for the first time (the response
+    has passed through every sink of the stack)."""
+    if 'done_hook' not in c.extra:
+      c.extra['done_hook'] = True
+      if self.on_first_completion is not None:
+        self.on_first_completion(c)
+
   def _mark(self, c):
-    """Order the first completion against network sends (C12)."""
+    """Order the first caller-visible completion against network sends (C12)."""
     if 'done_seq' not in c.extra:
       from sim.net import Net
       net = Net.INSTANCE
